@@ -2,7 +2,7 @@ import ALV.Common.Json
 import ALV.Model.C08
 import ALV.Spec.C08
 namespace ALV.Driver.C08
-open Lean ALV.J ALV.C08
+open ALV ALV.J ALV.C08
 
 /-- items are arbitrary JSON values (heterogeneous), the model is polymorphic -/
 def handle (entry : String) (j : Json) : Except String Json := do
